@@ -154,7 +154,26 @@ func evalC15(c c15Case, o *Obs) error {
 				}
 				bufs = append(bufs, b)
 			}
+			// the arrays behind the key's slices, beyond their lengths too: a parsed key's fields are windows into one decoded array
+			var arrays [][]byte
+			for _, name := range append([]string{"version"}, c15Fields...) {
+				if b, err := privateBuf(e.k, name); err == nil && cap(b) > 0 {
+					arrays = append(arrays, b[:cap(b)])
+				}
+			}
 			e.k.Zero()
+			if e.r.Priv != nil {
+				secret := make([]byte, 32)
+				e.r.Priv.FillBytes(secret)
+				for _, arr := range arrays {
+					if bytes.Contains(arr, secret) {
+						return fmt.Errorf("key #%d (%s): after Zero() the array behind the key's fields still holds its private key %x", a, e.origin, secret)
+					}
+				}
+			}
+			if adr, err := e.k.Address(nets[0].Params); err == nil && adr.EncodeAddress() == refCashEncode(nets[0].Params.CashAddressPrefix, 0, hash160(e.r.pubBytes())) {
+				return fmt.Errorf("key #%d (%s): after Zero() Address() still answers with the key's own address %s", a, e.origin, adr.EncodeAddress())
+			}
 			for i, b := range bufs {
 				if !allZero(b) {
 					return fmt.Errorf("key #%d (%s): after Zero() the buffer that held %s still contains %x", a, e.origin, c15Fields[i], b)
